@@ -155,9 +155,10 @@ func init() {
 	}, oracleNoPanic, oracleExec)
 	{
 		base := props["C06"]
-		props["C06"] = propRun{rule: base.rule + "; required stage: command paths with occurrences of a random subset of the options in scope and a chosen number of positional words; the expected outcome (success, or ErrRequired naming exactly the missing options, or exactly the unsatisfied positional arguments of the active command) is computed from the public model", run: func(c *Ctx) {
+		props["C06"] = propRun{rule: base.rule + "; required stage: command paths with occurrences of a random subset of the options in scope and a chosen number of positional words; the expected outcome (success, or ErrRequired naming exactly the missing options, or exactly the unsatisfied positional arguments of the active command) is computed from the public model; args-required stage: the parser and a command each with a positional struct, each with or without required:\"yes\": the command's own mark decides which of ITS plain fields are required, the message names exactly the unfilled ones", run: func(c *Ctx) {
 			base.run(c)
 			checkC06Required(c, budget(c.Tier, 1500, 60000))
+			checkC06ArgsRequired(c, budget(c.Tier, 400, 10000))
 		}}
 	}
 	parseProp("C07", caseRule+"emphasis: unknown / near-miss / out-of-scope options under the three policies", 2500, 100000, func(p *Profile) {
